@@ -527,11 +527,11 @@ Section Calls.
     /\ okres (snd (chown_gen slm sw vw (W (SLASH :: r)) uid gid)) = false.
   Proof.
     intros F (V & HR) Hok. unfold chown_gen, win. rewrite (vr_osw V), (vr_osl V). cbn [ostype_eqb].
-    rewrite orb_true_r, orb_false_r. cbn [fst snd]. split; [|reflexivity].
-    destruct (v_idm vl && negb (us_admin (v_user vl))); [exact F|].
+    cbn [fst snd]. split; [|reflexivity].
     destruct (sr_child (search_node sl vl (SLASH :: r) slm)) as [c|]; [|exact F].
     destruct (negb (is_file_exists (sr_err (search_node sl vl (SLASH :: r) slm)))); [exact F|].
-    destruct (get (f_heap sl) c) as [n|] eqn:El; [|exact F]. cbn [fst].
+    destruct (get (f_heap sl) c) as [n|] eqn:El; [|exact F].
+    destruct (v_idm vl && negb (chown_ok (node_meta n) (v_user vl) uid gid)); [exact F|]. cbn [fst].
     destruct F as [FH FI FV]. constructor; cbn [f_heap f_last_id f_vols with_heap]; auto.
     (* only the owner changes on the Linux side: the nodes stay related *)
     destruct (hrel_get_cases c FH) as [[Ew El']|(nw & nl & Ew & El' & Hn)]; [congruence|].
@@ -592,7 +592,7 @@ Section Calls.
     Ltac ren_perms F V op np sl vl :=
       rewrite (perm_on_admin op OpenWrite (fr_heap F) V), (perm_on_admin np OpenWrite (fr_heap F) V);
       destruct (negb (perm_on (f_heap sl) op OpenWrite (v_user vl))); [apply crel_fail, F|];
-      rewrite !(sticky_admin _ _ _ _ (vr_aw V)), !(sticky_admin _ _ _ _ (vr_al V)), !andb_false_r; cbv iota;
+      rewrite !(sticky_admin _ _ _ _ (vr_aw V)), !(sticky_admin _ _ _ _ (vr_al V)); cbv iota;
       destruct (negb (Nat.eqb np op) && negb (perm_on (f_heap sl) np OpenWrite (v_user vl))); [apply crel_fail, F|].
     cbv zeta. rewrite Hnd'.
     destruct (hrel_get_cases oc (fr_heap F)) as [[Ew El]|(nw & nl & Ew & El & Hn)]; rewrite Ew, El.
@@ -626,8 +626,8 @@ Section Calls.
     destruct (match sr_child rln with Some nc => node_is_dir (f_heap sl) nc | None => false end && negb (is_not_exist (sr_err rln))).
     - destruct (match sr_child rln with Some nc => Nat.eqb nc oc | None => false end && negb (str_eqb (SLASH :: ro) (SLASH :: rn)));
         [apply crel_same, F|apply crel_fail, F].
-    - ren_perms F V op np sl vl.
-      destruct (Nat.eqb oc op || is_prefix (pi_path (sr_pi rlo) ++ [SLASH]) (pi_path (sr_pi rln))); [apply crel_fail, F|].
+    - destruct (Nat.eqb oc op || Nat.eqb oc np || is_prefix (pi_path (sr_pi rlo) ++ [SLASH]) (pi_path (sr_pi rln))); [apply crel_fail, F|].
+      ren_perms F V op np sl vl.
       destruct (negb (is_not_exist (sr_err rln))); [apply crel_fail, F|].
       rewrite (vr_aw V), (vr_al V). cbn [negb]. rewrite !andb_false_r. apply Hmove, (fr_heap F).
   Qed.
